@@ -171,18 +171,18 @@ theorem C09_sig_pure (d₁ d₂ : CommandDef) (h : relevant d₁ = relevant d₂
     (shellSig recipeOf d₁).map (evalSig shellCommand) = (shellSig recipeOf d₂).map (evalSig shellCommand) := by
   have key : shellSig recipeOf d₁ = shellSig recipeOf d₂ := by
     rw [(C09_sig_defined d₁).1, (C09_sig_defined d₂).1]
-    cases d₁; cases d₂
     simp only [relevant, Relevant.mk.injEq] at h
     obtain ⟨h1, h2, h3, h4, h5, h6, hb⟩ := h
-    subst h1 h2 h3 h4 h5 h6
-    simp only [extLeaves, shellLeaves]
-    rename_i s₁ _ _ _ _ _ _ s₂
-    cases e₁ : s₁.isEmpty <;> cases e₂ : s₂.isEmpty <;>
-      simp only [e₁, e₂, if_true, if_false, Bool.false_eq_true] at hb ⊢
-    · simp at hb; simp [hb]
-    · simp at hb
-    · simp at hb
-    · simp at hb; obtain ⟨a, b, c, dd, e, f⟩ := hb; subst a b c dd e f; rfl
+    have he : extLeaves d₁ = extLeaves d₂ := by simp only [extLeaves, h2, h3, h4, h5, h6]
+    have hs : shellLeaves d₁ = shellLeaves d₂ := by
+      simp only [shellLeaves]
+      cases e₁ : d₁.signatureData.isEmpty <;> cases e₂ : d₂.signatureData.isEmpty <;>
+        simp only [e₁, e₂, if_true, if_false, Bool.false_eq_true] at hb ⊢
+      · simp at hb; simp [hb]
+      · simp at hb
+      · simp at hb
+      · simp at hb; obtain ⟨a, b, c, dd, e, f⟩ := hb; simp [a, b, c, dd, e, f]
+    rw [h1, he, hs]
   exact ⟨key, by rw [key]⟩
 
 /-- The seed the model hashes with is the constant extracted from include/llvm/ADT/Hashing.h. -/
